@@ -23,6 +23,7 @@ type Stage struct {
 	Window   time.Duration        // quiet window override
 	MaxSteps int                  // budget for Quiet / Until stages (default 4000)
 	Check    func(w *World) *Violation
+	OnBudget func(w *World) *Violation // the stage did not end within MaxSteps (liveness oracle); nil = inconclusive
 }
 
 // Scenario builds a world for one run of one property.
@@ -140,6 +141,12 @@ func (w *World) runStage(st *Stage) bool {
 		if st.Steps == 0 && ss.steps >= max {
 			w.budget = true
 			w.budgetAt = st.Name
+			if st.OnBudget != nil {
+				if v := st.OnBudget(w); v != nil {
+					v.Step = w.step
+					w.Violation = v
+				}
+			}
 			return false
 		}
 		ss.steps++
